@@ -4,6 +4,7 @@ package tables
 
 import (
 	"encoding/binary"
+	"errors"
 	"fmt"
 )
 
@@ -57,8 +58,23 @@ type ScriptList struct {
 	Scripts []Script          `isOpaque:""`
 }
 
+// parsingBudget returns the maximum cumulated size accepted for the tables
+// referenced by a list of offsets into [src].
+// Since these tables may be shared, this size may legitimately exceed
+// the length of [src], but an invalid font could use overlapping tables to
+// require a parsing time (and memory) out of proportion with the font size.
+// The values used mirror the ones used by the Harfbuzz sanitizer.
+func parsingBudget(src []byte) int {
+	const factor, minBudget = 64, 16384
+	if budget := factor * len(src); budget > minBudget {
+		return budget
+	}
+	return minBudget
+}
+
 func (sl *ScriptList) parseScripts(src []byte) error {
 	sl.Scripts = make([]Script, len(sl.Records))
+	budget := parsingBudget(src)
 	for i, rec := range sl.Records {
 		var err error
 		if L := len(src); L < int(rec.Offset) {
@@ -67,6 +83,9 @@ func (sl *ScriptList) parseScripts(src []byte) error {
 		sl.Scripts[i], _, err = ParseScript(src[rec.Offset:])
 		if err != nil {
 			return err
+		}
+		if budget -= sl.Scripts[i].binarySize(); budget < 0 {
+			return errors.New("invalid ScriptList: too many overlapping Script tables")
 		}
 	}
 	return nil
@@ -80,6 +99,7 @@ type Script struct {
 
 func (sc *Script) parseLangSys(src []byte) error {
 	sc.LangSys = make([]LangSys, len(sc.LangSysRecords))
+	budget := parsingBudget(src)
 	for i, rec := range sc.LangSysRecords {
 		var err error
 		if L := len(src); L < int(rec.Offset) {
@@ -89,8 +109,23 @@ func (sc *Script) parseLangSys(src []byte) error {
 		if err != nil {
 			return err
 		}
+		if budget -= sc.LangSys[i].binarySize(); budget < 0 {
+			return errors.New("invalid Script: too many overlapping LangSys tables")
+		}
 	}
 	return nil
+}
+
+// binarySize returns the size of the table and of its LangSys tables
+func (sc *Script) binarySize() int {
+	size := 4 + 6*len(sc.LangSysRecords)
+	if sc.DefaultLangSys != nil {
+		size += sc.DefaultLangSys.binarySize()
+	}
+	for _, ls := range sc.LangSys {
+		size += ls.binarySize()
+	}
+	return size
 }
 
 type LangSys struct {
@@ -98,6 +133,8 @@ type LangSys struct {
 	RequiredFeatureIndex uint16   // Index of a feature required for this language system; if no required features = 0xFFFF
 	FeatureIndices       []uint16 `arrayCount:"FirstUint16"` // [featureIndexCount]	Array of indices into the FeatureList, in arbitrary order
 }
+
+func (ls *LangSys) binarySize() int { return 6 + 2*len(ls.FeatureIndices) }
 
 type FeatureList struct {
 	Records  []TagOffsetRecord `arrayCount:"FirstUint16"` // Array of FeatureRecords — zero-based (first feature has FeatureIndex = 0), listed alphabetically by feature tag
